@@ -613,7 +613,15 @@ pub fn multifile_main(args: &[String]) {
             continue;
         }
         if let LoadResult::Ok(l) = load(bytes, true) {
-            docs.push((i, l.file.version()));
+            // C01's multi-file clause is about files that split the model where AUTOSAR files are meant to be split: both documents
+            // carry only AR-PACKAGES under the root (package names are unique per generator run).  Two files that both define
+            // non-splittable root content (ADMIN-DATA, INTRODUCTION, ...) with different values are a merge conflict, which is C09's subject.
+            let only_packages = only.is_some() || l.model.root_element().sub_elements().all(|e| e.element_name() == ElementName::ArPackages);
+            if only_packages {
+                docs.push((i, l.file.version()));
+            } else {
+                out.count("documents-with-other-root-content-not-paired");
+            }
         }
     }
     let mut pairs: Vec<(usize, usize)> = Vec::new();
